@@ -308,7 +308,9 @@ def profiles(nc, tier, seed):
 def dense_cases(ctx):
     cases = []
     geos = [('line', 4, 'absent'), ('grid', 6, 'absent'), ('twoshank', 6, 'two'), ('col14', 14, 'absent'),
-            ('twoshank_close', 6, 'two'), ('twoshank_close', 14, 'two')]
+            ('twoshank_close', 6, 'two'), ('twoshank_close', 14, 'two'),
+            # near-ties at the 12-channel cut-off that single precision or rounding would lose
+            ('line14_eps', 14, 'absent')]
     for geo, nc, sh in geos:
         prof = profiles(nc, ctx.tier, ctx.seed)
         for i0 in range(0, len(prof), 60):
